@@ -344,6 +344,8 @@ def path_text(np):
 
 
 def r4_main(ctx, chk, rule="C16.4"):
+    from . import C15 as _C15
+    _C15.parse_args_source(ctx, chk, rule, "conditionalrewards.py::main")     # the file named on *this* command line is the one read and reported
     f = ctx.func("conditionalrewards.py::main")
     sx = SymX(ctx, f, inline_depth=0).run()
     calls = {}
